@@ -61,7 +61,13 @@ def c17_1(ctx):
 def c17_2(ctx):
     fn = ctx.repo.fn('_bitemporal:bi_merge')
     sorts = [c for c in calls_in(fn.node, 'sort_values')]
-    ctx.at_least(1, len(sorts), 'sort_values in bi_merge')
+    gbs = [c for c in calls_in(fn.node, 'groupby')]
+    ctx.need(gbs or sorts, 'neither sort_values nor groupby found in bi_merge')
+    if not sorts:
+        ctx.count(1, fn.where())
+        ctx.fail(fn, gbs[0], 'the per-date groups are formed without sorting by the publication stamp: _drop_repeats compares ADJACENT versions and keeps the last of a stamp, which is only "the history in publication order" after sort_values(_updated, kind="stable"); re-merging an older version otherwise places it after newer ones',
+                 witness='versions 1 -> 2 -> 1 (reverting history), then version 2 merged again')
+        return
     # the consumer is tie-sensitive?
     dr = ctx.repo.fn('_bitemporal:_drop_repeats')
     tie = [c for c in calls_in(dr.node, 'drop_duplicates') if const(kw(c, 'keep')) in ('last', 'first')] or [s for s in ast.walk(dr.node) if 'iloc[1:]' in U(s)]
